@@ -547,6 +547,12 @@ void mmd_export_link_opendocument(DString * out, const char * source, token * te
 		mmd_export_token_tree_opendocument(out, source, text->child, scratch);
 	}
 
+	// Leave the token as we found it, so that the tree can be exported again
+	if (text && text->child && text->child->len > 1) {
+		text->child->next->start++;
+		text->child->next->len--;
+	}
+
 	print_const("</text:a>");
 }
 
